@@ -923,6 +923,7 @@ func C02(c *Ctx) {
 	c.R.Rule("C02-R5", "E5+E3", "bindings private to each alternative", 2)
 	c.shareRule("C03", "C03-R1", "C02-R9", "the matcher keeps nothing between calls (a memo answers for another pattern)")
 	c.shareRule("C13", "C13-R1", "C02-R13", "the patterns a compiled spec hands to the matcher are in the plain JSON form it recognises (parsed once, canonicalised)")
+	c.shareRule("C09", "C09-R6", "C02-R18", "a number bound from a state that was read back is a number the matcher knows (float64): a pattern with that variable still finds its instance")
 	c.shareRule("C01", "C01-R15", "C02-R17", "a pattern constant is found in a message that holds that very string: the strings compared are the strings given")
 	c.shareRule("C14", "C14-R11", "C02-R16", "the single-loop host matches a machine's patterns against the message it was given, not an edited copy")
 	c.shareRule("C09", "C09-R2", "C02-R12", "what a script returns as bindings is brought into the plain JSON form the matcher recognises (an int64 left in the bindings is matched by no number)")
